@@ -18,7 +18,16 @@ import sys
 from contextlib import contextmanager
 from pathlib import Path
 
+from harness.translate import c14_tables
+
 ID = "C14"
+TRANSLATOR_NAME = "harness/translate/c14_tables.py"
+
+
+def translate(ctx):
+    c14_tables.translate(ctx)
+
+
 MODEL = ("Model.C14_finder", "run_C14")
 COQ_TARGETS = ["Proofs/C14_finder.vo", "Proofs/C14_order.vo", "Proofs/C14_import.vo", "Proofs/C14_pth.vo", "Proofs/C14_ns.vo", "Proofs/C14_bypath.vo", "Proofs/C14_nsload.vo", "Proofs/C14_nsinv.vo", "Proofs/C14_nsorder.vo"]
 
@@ -1180,7 +1189,8 @@ RULE = ("targeted layouts (witnesses of all eleven findings, every precedence de
         "with overlapping sub-directories: about half of them have the F8/F3/F10 shapes in the raw scan). Each layout is run under its own, the sorted, the reversed and random listing orders, "
         "and loaded by up to 10 paths (top-level directories in and outside the search directories, __init__ files, nested directories and files, a missing path). "
         "non-trivial = at least 4 file-system nodes; distinct by canonical layout")
-TRUSTED = ["abstraction: the generated layout is both written to disk and passed to the model; listing order is imposed by wrapping os.scandir/os.listdir",
+TRUSTED = ["translator harness/translate/c14_tables.py (constants and loop shapes of finder.py / loader.py -> coq/Gen/C14_tables.v; the rest of the model is hand-written and tied by differential runs)",
+           "abstraction: the generated layout is both written to disk and passed to the model; listing order is imposed by wrapping os.scandir/os.listdir",
            "pth lines are pre-classified by the harness (absolute existing dir / relative to the .pth file / relative to the cwd only / ignored by both sides)"]
 ASSUMPTIONS = ["allow_inspection=False; files are empty (or a pkgutil namespace declaration); byte-code files are valid, extension modules are fake",
                "modules whose CPython spec is a compiled file (or whose import needs a fake binary) are out of scope of the direct comparison",
